@@ -363,7 +363,7 @@ Section Refine.
                     match l with
                     | [] => Ok (ser (cint acc))
                     | x :: r => let* z := (let* b := rtc bt x in dec b) in
-                                match as_pyint z with Some n => go r (acc + n) | None => Raise TypeError end
+                                match as_pyint z with Some n => go r (Z.lor acc n) | None => Raise TypeError end
                     end).
       assert (G : forall items acc, (forall x, In x items -> normal x) ->
         rel3 ((fix go (l : list cbor) : res (list val) :=
@@ -371,14 +371,14 @@ Section Refine.
              ((fix go (l : list cbor) (acc : Z) : res cbor :=
                  match l with
                  | [] => Ok (cint acc)
-                 | x :: r => let* c := rsp bt x in match as_pyint c with Some n => go r (acc + n) | None => Raise TypeError end
+                 | x :: r => let* c := rsp bt x in match as_pyint c with Some n => go r (Z.lor acc n) | None => Raise TypeError end
                  end) items acc)
              (fun ys c => forall b, TGO ys acc = Ok b -> b = ser c)).
       { induction items as [|x r IHr]; intros acc Hni; [intros b Hb; injection Hb as <-; reflexivity|].
         pose proof (IH3 bt x Hw (Hni x (or_introl eq_refl))) as Hx. unfold rel3 in Hx |- *.
         destruct (rfo bt x) as [y|e] eqn:Ey, (rsp bt x) as [c|e'] eqn:Ec; cbn [bind].
         - destruct Hx as [_ Hi]. destruct (as_pyint c) as [k|] eqn:Ek.
-          + specialize (IHr (acc + k) (fun y0 Hy0 => Hni y0 (or_intror Hy0))). d2 IHr; try exact IHr.
+          + specialize (IHr (Z.lor acc k) (fun y0 Hy0 => Hni y0 (or_intror Hy0))). d2 IHr; try exact IHr.
             intros b Hb. cbn [TGO] in Hb. fold TGO in Hb. destruct (let* b0 := rtc bt y in dec b0) as [z|] eqn:Ez; cbn [bind] in Hb; [|discriminate].
             rewrite (Hi z eq_refl), Ek in Hb. exact (IHr b Hb).
           + match goal with |- match (let* ys := ?F in _) with _ => _ end => destruct F as [ys|e2] end; cbn [bind]; [discriminate|exact I].
